@@ -187,8 +187,19 @@ def run_rigid_body(spec, ctx, ct, log):
                     ctx.mon("STATE:reassemble")
                 elif op == "inplace_update":
                     # a long-lived state array gets new contents (q[:] = ...): the SAME array object, other coordinates
+                    # the memos are filled at the old contents first; after the update ANOTHER array holding the old values is queried (an
+                    # entry whose stored key or value is a view of the caller's array now answers for the wrong state)
+                    probes = []
+                    for name in MEMOISED:
+                        kb_, B_ = _pick(rng, Bs)
+                        kwp = {} if (B_ is None or name in ("A_IB", "A_IB_q")) else {"B_r_CP": B_}
+                        getattr(body, name)(*((ts[0], q, u) if name == "v_P" else (ts[0], q)), **kwp)
+                        probes.append((name, kwp))
+                    q_old, u_old = q.copy(), u.copy()
                     q[:] = gen.rigid_body_state(rng, unit=bool(rng.random() < 0.5))[0]
                     u[:] = rng.normal(size=6)
+                    for name, kwp in probes:
+                        getattr(body, name)(*((ts[0], q_old, u_old) if name == "v_P" else (ts[0], q_old)), **kwp)
                     ctx.mon("STATE:inplace_update")
                 else:
                     qq = q.copy()
